@@ -551,6 +551,9 @@ func cmdBulk(args []string) int {
 		if nok > 0 && nerr > 0 {
 			out.Stats["distinct_nontrivial"]++
 		}
+		for _, m := range monitorUndecodable(run.Case) {
+			out.Violation("C32", cs, m)
+		}
 		for _, m := range monitorC32(run) {
 			out.Violation("C32", cs, m)
 		}
@@ -566,4 +569,46 @@ func cmdBulk(args []string) int {
 		finish(runBulkCase(genBulkCase(r.Fork())))
 	}
 	return 0
+}
+
+// monitorUndecodable (no model): the same bulk with ONE element replaced by an element that is valid JSON but cannot be
+// decoded (a REVERT_TRANSACTION whose id is a string), at a position derived from the case. Whatever the handler makes of
+// it (the whole bulk refused, or that element reported as failed), the bulk options keep their meaning: an atomic bulk
+// that reports a failure applied nothing; a sequential bulk without continueOnFailure applied nothing after the failed position.
+func monitorUndecodable(c bulkCase) []string {
+	if c.Parallel || len(c.Ops) < 2 || (c.Cont && !c.Atomic) {
+		return nil
+	}
+	k := (len(c.Ops) + int(c.Now%7)) % len(c.Ops)
+	b := newBulkStack(c.Mode, c.Prep)
+	b.st.PG.Clock = pgsem.TS(c.Now)
+	nlogs := func() int {
+		return len(rawRows(b.st.PG, `select id from logs where ledger = 'l1'`))
+	}
+	before, n0 := b.snap(), nlogs()
+	els := make([]string, len(c.Ops))
+	for i, o := range c.Ops {
+		els[i] = opJSON(o)
+	}
+	els[k] = `{"action":"REVERT_TRANSACTION","data":{"id":"abc"}}`
+	body := "[" + strings.Join(els, ",") + "]"
+	opts := bulking.BulkingOptions{Atomic: c.Atomic, ContinueOnFailure: c.Cont, SchemaVersion: c.Version}
+	entries, status, runErr, _ := runBulkHTTPWith(b.ctx, bulking.NewBulker(b.ctrl), body, opts, nil)
+	failed := runErr != nil || status/100 != 2
+	for _, e := range entries {
+		if e.ErrorCode != "" {
+			failed = true
+		}
+	}
+	if !failed {
+		return []string{fmt.Sprintf("a bulk whose element %d cannot be decoded (revert id \"abc\") is answered as a success (status %d) [undecodable-accepted]", k, status)}
+	}
+	after, n1 := b.snap(), nlogs()
+	if c.Atomic && after != before {
+		return []string{fmt.Sprintf("atomic bulk with an undecodable element at position %d reports a failure (status %d) but changed the ledger: %d new logs [undecodable-atomic-partial]", k, status, n1-n0)}
+	}
+	if !c.Atomic && !c.Cont && n1-n0 > k {
+		return []string{fmt.Sprintf("sequential bulk without continueOnFailure: element %d cannot be decoded, yet %d elements were applied (at most the %d before it may be) [undecodable-not-stopped]", k, n1-n0, k)}
+	}
+	return nil
 }
